@@ -214,7 +214,7 @@ func (r *Run) tryMerge(fr *Frame, b *ssa.BasicBlock, cond *Term) (join *ssa.Basi
 				r.steps++
 				switch t := ins.(type) {
 				case *ssa.If:
-					c := r.get(fr, t.Cond).(*Term)
+					c := r.ts.norm(r.get(fr, t.Cond).(*Term))
 					if x.Succs[0] == x.Succs[1] {
 						eg[edge{x, x.Succs[0]}] = guard
 					} else {
